@@ -27,6 +27,7 @@ def run(ctx: Ctx):
     ctx.require_min("share-of-sum block sites", 12)
     totals_last(ctx)
     stripe(ctx)
+    signed_totals(ctx)
     public(ctx)
     from .common import no_shared_writes
 
@@ -74,6 +75,38 @@ def totals_last(ctx: Ctx):
         else:
             ctx.held("totals-last", where, "no NaN-skipping total is handed to the subtotal machinery", "")
     ctx.count("subtotal calls in the share-of-sum measures", n)
+
+
+def signed_totals(ctx: Ctx):
+    """A sum measure is over a SIGNED numeric variable: the total a share is divided by can be negative, and the share is
+    then still sum / total (the shares still add to 1).  The only degenerate total is zero.  An ORDER comparison of a sum
+    or of a total of sums with zero (`total <= 0`, `sums > 0`) - the habit from counts, which cannot be negative - treats
+    a negative total as "nothing to apportion"."""
+    from ..stmts import reachable_functions, resolver
+
+    n, hits = 0, []
+    for short, cname in ((SM, "_ShareSum"), (MM, "_ColumnShareSum"), (MM, "_RowShareSum"), (MM, "_TotalShareSum")):
+        ci = ctx.repo.cls(short, cname)
+        fns = []
+        for member in ("base_values", "subtotal_values", "blocks"):
+            if ctx.repo.lookup(ci, member) is not None:
+                fns += [f for f in reachable_functions(ctx.repo, ci, member) if f not in fns]
+        for fn in fns:
+            res = resolver(fn, multi=True)
+            for c in ast.walk(fn):
+                if not (isinstance(c, ast.Compare) and len(c.ops) == 1 and isinstance(c.ops[0], (ast.Lt, ast.LtE, ast.Gt, ast.GtE))):
+                    continue
+                n += 1
+                sides = [c.left, c.comparators[0]]
+                zero = [x for x in sides if isinstance(x, ast.Constant) and isinstance(x.value, (int, float)) and not isinstance(x.value, bool) and x.value == 0]
+                other = [x for x in sides if x not in zero]
+                if len(zero) == 1 and other and any("sum" in u(v).lower() for v in res(other[0])):
+                    hits.append((f"{short}::{cname}.{getattr(fn, 'name', '?')}", u(c)))
+    ctx.count("order comparisons in the share-of-sum code", n)
+    for where, text in hits:
+        ctx.violated("signed-total", where, text, "a total of sums is compared with zero by (in)equality only", "sums are signed: a negative total is a total, the shares are still sum / total and still add to 1")
+    if not hits:
+        ctx.held("signed-total", "share-of-sum classes (stripe and matrix)", f"{n} order comparison(s), none of a sum with zero", "")
 
 
 def grid(ctx: Ctx, cname: str, axis):
